@@ -114,7 +114,8 @@ func rebase(ref *Ref, v *url.URL, notEqual bool) (Ref, bool) {
 
 	u := ref.GetURL()
 
-	if u.Scheme != v.Scheme || u.Host != v.Host {
+	if u.Scheme != v.Scheme || u.Host != v.Host || u.RawQuery != v.RawQuery {
+		// not the same site, or documents that are told apart by their query: the $ref remains absolute
 		return *ref, false
 	}
 
